@@ -1,10 +1,13 @@
 mod a2lgen;
+mod c01;
 mod c03lex;
 mod c12;
 mod c13;
 mod c14;
 mod c17;
 mod common;
+mod docgen;
+mod tree;
 mod soup;
 
 use common::Args;
@@ -48,6 +51,7 @@ fn main() {
     }
     common::silence_panics();
     let report = match prop.as_str() {
+        "C01" => c01::run(&args),
         "C03L" => c03lex::run(&args),
         "C12" => c12::run(&args),
         "C13" => c13::run(&args),
